@@ -6,6 +6,7 @@ package sess
 
 import (
 	"fmt"
+	"google.golang.org/protobuf/encoding/protowire"
 	"sort"
 	"strings"
 
@@ -56,6 +57,10 @@ type Step struct {
 	// Rep > 0 repeats the step Rep more times (long streams: the same election id
 	// announced again and again is legal); keeps long cases small and shrinkable.
 	Rep int `json:"rep,omitempty"`
+	// Unk > 0 (elec): the election id message additionally carries an unknown field (number
+	// 15, varint Unk) - as sent by a client built against a later revision of the protocol;
+	// the number announced is the same
+	Unk int `json:"unk,omitempty"`
 }
 
 func (s Step) String() string {
@@ -592,6 +597,9 @@ func (w *world) doStep(i int, stp Step, sm *sessModel) bool {
 		}
 	case "elec":
 		req := &spb.ModifyRequest{ElectionId: stp.ID.Proto()}
+		if stp.Unk > 0 {
+			req.ElectionId.ProtoReflect().SetUnknown(protowire.AppendVarint(protowire.AppendTag(nil, 15, protowire.VarintType), uint64(stp.Unk)))
+		}
 		var ws []want
 		if sm.negotiated == nil {
 			ws = append(ws, want{code: codes.FailedPrecondition, reason: spb.ModifyRPCErrorDetails_ELECTION_ID_IN_ALL_PRIMARY})
